@@ -1,7 +1,7 @@
 (* C05 — HDF5-era lazy and concatenated indexers equal composed outer indexing.  Only statements here. *)
 From Coq Require Import ZArith List Bool.
 From KV Require Import Base.Sx Base.PySlice Base.AxisIndex Base.NdArray Base.LazyDType Gen.Generated
-  Model.LazyIdx Model.ConcatIdx Proofs.LazyIdxP Proofs.ConcatIdxP.
+  Model.LazyIdx Model.LazyNd Model.ConcatIdx Model.LazyKeep Proofs.LazyIdxP Proofs.LazyNdP Proofs.ConcatIdxP Proofs.LazyKeepP.
 Import ListNotations.
 Open Scope Z_scope.
 
@@ -53,6 +53,78 @@ Theorem C05_getitem : forall shape ds k1 ts dt k2 li out a1,
   spec_getitem shape ds k1 ts dt k2 = Ok out.
 Proof. exact getitem_correct. Qed.
 Print Assumptions C05_getitem.
+
+(* ---- the N-d chunk loop (np.mgrid over the segment products, np.empty buffer, post-selection, block assignment) ---- *)
+
+(* C05_nd_loop (full strength): on abstract per-axis writes.  If on every kept axis the segment writes tile the output
+   range [0, |G|) (axis_tiled) then looping over ALL combinations of one segment per axis, reading the chunk
+   take ds (...) and assigning it to its output block, turns EVERY buffer of the right shape - whatever it held -
+   into the outer product take ds Gs.  (Induction over the axes; rows of a block are independent.) *)
+Theorem C05_nd_loop : forall Ws Gs, Forall2 axis_tiled Ws Gs ->
+  forall ds g, shaped (take_shape Gs) g -> pure_loop ds Ws g = take ds Gs.
+Proof. exact pure_loop_correct. Qed.
+Print Assumptions C05_nd_loop.
+
+(* C05_nd_refines (full strength): for plans whose output slices are contiguous from 0 (plan_tiled; every plan of
+   LazyIndexer is, C05_plans_tiled), any dataset content and ANY content of the np.empty buffer: if the real loop
+   (read_sel = dataset[ints / slices], post-selection per kept axis, write_nd = out[slices] = chunk with exact shape
+   match, or the single read when every axis is a scalar) succeeds, then every axis gathers in the 1-D model and the
+   result IS the outer product of the per-axis gathers, with shape [np.sum(segments) ...]. *)
+Theorem C05_nd_refines : forall garbage shape plans ds t,
+  List.length plans = List.length shape -> Forall plan_tiled plans ->
+  (forall sh, shaped sh (garbage sh)) ->
+  nd_extract garbage shape plans ds = Ok t ->
+  exists sels, mapM (fun a => axis_gather (fst a) (snd a)) (combine shape plans) = Ok sels
+    /\ t = take ds sels /\ take_shape sels = out_shape_of plans.
+Proof. exact nd_extract_sound. Qed.
+Print Assumptions C05_nd_refines.
+
+Theorem C05_plans_tiled : forall n m p, axis_plan n m = Ok p -> plan_tiled p.
+Proof. exact axis_plan_tiled. Qed.
+Print Assumptions C05_plans_tiled.
+
+(* C05_nd_equiv (full strength): for every indexer that can be constructed, every dataset content, every index tuple
+   and every content of np.empty, the indexer with its chunk loop and the per-axis model give THE SAME result - the same
+   answer, and also the same rejections (the loop neither changes an answer nor rejects a request whose axes all
+   gather).  Hence every statement about [getitem] (C05_getitem, C05_rejects*, C05_shape_dtype, the F30 / F31
+   witnesses) is a statement about the real loop. *)
+Theorem C05_nd_equiv : forall garbage shape k1 ts dt li ds ixs,
+  Forall (fun d => 0 <= d) shape -> (forall sh, shaped sh (garbage sh)) ->
+  mk_lazy shape k1 ts dt = Ok li ->
+  getitem_nd garbage li ds ixs = getitem li ds ixs.
+Proof. exact getitem_nd_equiv. Qed.
+Print Assumptions C05_nd_equiv.
+
+(* C05_getitem_nd (full strength): C05_getitem for the indexer WITH its chunk loop and an arbitrary np.empty. *)
+Theorem C05_getitem_nd : forall garbage shape ds k1 ts dt k2 li out a1,
+  Forall (fun d => 0 <= d) shape -> (forall sh, shaped sh (garbage sh)) ->
+  mk_lazy shape k1 ts dt = Ok li ->
+  oindex_keep (mk_nd shape ds) k1 = Ok a1 ->
+  getitem_nd garbage li ds k2 = Ok out ->
+  spec_getitem shape ds k1 ts dt k2 = Ok out.
+Proof. exact getitem_nd_correct. Qed.
+Print Assumptions C05_getitem_nd.
+
+(* no element of the answer is left over from the uninitialised buffer *)
+Theorem C05_getitem_nd_garbage_free : forall g1 g2 li ds ixs o1 o2,
+  List.length (li_lookup li) = List.length (li_shape li) ->
+  (forall sh, shaped sh (g1 sh)) -> (forall sh, shaped sh (g2 sh)) ->
+  getitem_nd g1 li ds ixs = Ok o1 -> getitem_nd g2 li ds ixs = Ok o2 -> o1 = o2.
+Proof. exact getitem_nd_garbage_free. Qed.
+Print Assumptions C05_getitem_nd_garbage_free.
+
+(* non-vacuity: 3-d, dense + scalar + sparse axes through the loop; all-scalar read; an out-of-range scalar next to an
+   empty selection and a negative step down to 0 are rejected *)
+Theorem C05_getitem_nd_example :
+  run_lazy_nd [12; 3; 4] [ASlice (Some 1) None None; AMask [true; false; true]] [AList [0; 2; 3; 7; 9]; AInt (-1); AList [0; 3]]
+  = spec_getitem [12; 3; 4] (arange [12; 3; 4] 0) [ASlice (Some 1) None None; AMask [true; false; true]] [] 0
+                 [AList [0; 2; 3; 7; 9]; AInt (-1); AList [0; 3]]
+  /\ run_lazy_nd [12; 3; 4] [ASlice (Some 1) None None; AMask [true; false; true]] [AList [0; 2; 3; 7; 9]; AInt (-1); AList [0; 3]] <> Err
+  /\ run_lazy_nd [5; 2] [] [AInt 1; AInt 0] = spec_getitem [5; 2] (arange [5; 2] 0) [] [] 0 [AInt 1; AInt 0]
+  /\ run_lazy_nd [5; 2] [] [AList []; AInt 5] = Err
+  /\ run_lazy_nd [5] [] [ASlice None None (Some (-1))] = Err.
+Proof. exact lazy_nd_example. Qed.
+Print Assumptions C05_getitem_nd_example.
 
 (* the hypotheses are satisfiable: a dense (span + post-select) and a sparse (per-run) selection *)
 Theorem C05_getitem_example :
@@ -122,6 +194,27 @@ Theorem C05_concat : forall raws ts ix c out fulls,
   spec_concat raws ts ix = Ok out.
 Proof. exact concat_correct. Qed.
 Print Assumptions C05_concat.
+
+(* C05_concat_shape_dtype (full strength): the .shape and .dtype properties of the concatenated indexer are the shape and
+   dtype of c[:] (through the whole transform chain), and len(c) = shape[0] is the sum of the lengths of ALL parts'
+   first-stage results - parts without rows are dropped at construction and contribute nothing, a part that only
+   selects nothing on a LATER axis keeps its rows. *)
+Theorem C05_concat_shape_dtype : forall raws ts c out fulls s d,
+  Forall raw_ok raws ->
+  mapM (fun r => oindex_keep (mk_nd (r_shape r) (r_ds r)) (r_keep r)) raws = Ok fulls ->
+  c_mk raws ts = Ok c -> c_getitem c [] = Ok out ->
+  c_shape c = Ok s -> c_dtype c = Ok d ->
+  nd_shape (a_nd out) = s /\ a_dtype out = d /\ hd 0 s = zsum (map (fun a => hd 0 (nd_shape a)) fulls).
+Proof. exact concat_shape_dtype. Qed.
+Print Assumptions C05_concat_shape_dtype.
+
+Theorem C05_concat_shape_dtype_example :
+  let raws := [mk_craw [3; 2] [] (arange [3; 2] 0) 0; mk_craw [0; 2] [] (arange [0; 2] 1) 0; mk_craw [4; 2] [ASlice None None (Some 2)] (arange [4; 2] 1) 0] in
+  let ts := [TMap 2 1 (Some 1); TAdd; TMap 1 0 (Some 4)] in
+  exists c out, c_mk raws ts = Ok c /\ c_getitem c [] = Ok out /\ c_shape c = Ok [5; 2; 1] /\ c_dtype c = Ok 4
+    /\ nd_shape (a_nd out) = [5; 2; 1] /\ a_dtype out = 4.
+Proof. exact concat_shape_dtype_example. Qed.
+Print Assumptions C05_concat_shape_dtype_example.
 
 (* what katdal's _initial_dtype guarantees when it accepts the dtypes of the kept parts: every part's dtype can be
    stored in it without changing a value, and it is numpy's promotion (the dtype of np.concatenate) of them *)
@@ -206,6 +299,66 @@ Theorem C05_concat_examples :
 Proof. exact concat_example_supported. Qed.
 Print Assumptions C05_concat_examples.
 
+(* ---- transforms that use their `keep` argument (katdal's keepdims and weights transforms) ---- *)
+
+(* C05_getitem_keep (full strength): LazyIndexer with its chunk loop and ANY chain of transforms, including transforms
+   that depend on `keep` (KKeepdims: scalar-indexed axes come back with length 1; KAux: another array of the first-stage
+   shape indexed with the same keep): the answer is that chain applied - with the second-stage index exactly as the
+   user wrote it and the shape of source[stage 1] - to source[stage 1][stage 2]. *)
+Theorem C05_getitem_keep : forall garbage shape ds k1 ts dt k2 k out a1,
+  Forall (fun d => 0 <= d) shape -> (forall sh, shaped sh (garbage sh)) ->
+  mk_k shape k1 ts dt = Ok k ->
+  oindex_keep (mk_nd shape ds) k1 = Ok a1 ->
+  getitem_k garbage k ds k2 = Ok out ->
+  spec_getitem_k shape ds k1 ts dt k2 = Ok out.
+Proof. exact getitem_k_correct. Qed.
+Print Assumptions C05_getitem_keep.
+
+(* C05_shape_dtype_keep (full strength): .shape, .dtype and len() are the shape, dtype and length of self[:] through
+   every chain (several dtype-declaring transforms: the LAST declared dtype; keep-aware transforms declare nothing);
+   the shape has at least one axis. *)
+Theorem C05_shape_dtype_keep : forall garbage shape ds k1 ts dt k a1 out s,
+  Forall (fun d => 0 <= d) shape -> (forall sh, shaped sh (garbage sh)) ->
+  mk_k shape k1 ts dt = Ok k -> oindex_keep (mk_nd shape ds) k1 = Ok a1 ->
+  klazy_shape k = Ok s -> getitem_k garbage k ds [] = Ok out ->
+  nd_shape (a_nd out) = s /\ a_dtype out = klazy_dtype k /\ klazy_len k = Ok (hd 0 (nd_shape (a_nd out))) /\ s <> [].
+Proof. exact getitem_k_full_shape_dtype. Qed.
+Print Assumptions C05_shape_dtype_keep.
+
+(* every answer has the dtype property, whatever the index *)
+Theorem C05_dtype_keep : forall ctx ts x y, k_apply_all ctx ts x = Ok y -> a_dtype y = chain_dtype (a_dtype x) ts.
+Proof. exact k_apply_all_dtype. Qed.
+Print Assumptions C05_dtype_keep.
+
+(* C05_concat_keep (full strength): the concatenated indexer with a keep-aware chain; the chain is told the shape of
+   np.concatenate of the parts (C05_concat_full_shape) *)
+Theorem C05_concat_keep : forall raws ts ix k out fulls,
+  Forall raw_ok raws ->
+  mapM (fun r => oindex_keep (mk_nd (r_shape r) (r_ds r)) (r_keep r)) raws = Ok fulls ->
+  kc_mk raws ts = Ok k -> kc_getitem k ix = Ok out ->
+  spec_concat_k raws ts ix = Ok out.
+Proof. exact kconcat_correct. Qed.
+Print Assumptions C05_concat_keep.
+
+Theorem C05_concat_full_shape : forall raws ts c fulls init,
+  Forall raw_ok raws ->
+  mapM (fun r => oindex_keep (mk_nd (r_shape r) (r_ds r)) (r_keep r)) raws = Ok fulls ->
+  c_mk raws ts = Ok c -> c_initial_shape (c_parts c) = Ok init ->
+  exists x0, spec_concat raws [] [] = Ok x0 /\ nd_shape (a_nd x0) = init.
+Proof. exact concat_full_spec. Qed.
+Print Assumptions C05_concat_full_shape.
+
+Theorem C05_keep_example :
+  run_k [4; 3; 2] [] [KKeepdims] [ASlice (Some 1) None None; AInt (-1)]
+  = spec_getitem_k [4; 3; 2] (arange [4; 3; 2] 0) [] [KKeepdims] 0 [ASlice (Some 1) None None; AInt (-1)]
+  /\ (exists x, run_k [4; 3; 2] [] [KKeepdims] [ASlice (Some 1) None None; AInt (-1)] = Ok x /\ nd_shape (a_nd x) = [3; 1; 2])
+  /\ run_k [6; 2] [ASlice (Some 1) None (Some 2)] [KAux 1000; KPlain (TMap 2 0 None)] [AList [0; 2]; AInt 1]
+     = spec_getitem_k [6; 2] (arange [6; 2] 0) [ASlice (Some 1) None (Some 2)] [KAux 1000; KPlain (TMap 2 0 None)] 0 [AList [0; 2]; AInt 1]
+  /\ (exists x, run_k [6; 2] [ASlice (Some 1) None (Some 2)] [KAux 1000; KPlain (TMap 2 0 None)] [AList [0; 2]; AInt 1] = Ok x
+                /\ flatten (nd_body (a_nd x)) = [2 * (3 + 1000 * 1); 2 * (11 + 1000 * 5)]).
+Proof. exact keep_example. Qed.
+Print Assumptions C05_keep_example.
+
 (* ---- open findings: the faithful model reproduces them (full-strength "always answers" refuted) ---- *)
 
 (* F30 *)
@@ -234,3 +387,26 @@ Theorem C05_concat_empty_tail_refuted :
   /\ spec_concat two_parts [] [full; ASlice (Some 1) (Some 0) None] <> Err.
 Proof. exact concat_empty_tail_refuted. Qed.
 Print Assumptions C05_concat_empty_tail_refuted.
+
+(* F30b *)
+Theorem C05_concat_negative_step_refuted :
+  run_concat two_parts [ASlice None None (Some (-1))] = Err
+  /\ spec_concat two_parts [] [ASlice None None (Some (-1))] <> Err.
+Proof. exact concat_negative_step_refuted. Qed.
+Print Assumptions C05_concat_negative_step_refuted.
+
+(* ---- the unsupported forms are REJECTED (C05_getitem* / C05_concat* say: whatever is answered equals the spec) ---- *)
+
+(* a negative step on the first dimension of the concatenated indexer is rejected for every list of parts, every
+   bounds and every tail: never answered from the wrong indexer *)
+Theorem C05_concat_negative_step_rejected : forall ps dt total S a b c tail start stop stride,
+  slice_indices total a b c = Some (start, stop, stride) -> stride < 0 ->
+  c_head ps dt total S (ASlice a b c) tail = Err.
+Proof. exact concat_negative_step_rejected. Qed.
+Print Assumptions C05_concat_negative_step_rejected.
+
+(* a scalar outside [-len, len) on the first dimension is rejected *)
+Theorem C05_concat_scalar_out_of_range_rejected : forall ps dt total S z tail, 0 <= total -> z < - total \/ total <= z ->
+  c_head ps dt total S (AInt z) tail = Err.
+Proof. exact concat_scalar_out_of_range_rejected. Qed.
+Print Assumptions C05_concat_scalar_out_of_range_rejected.
